@@ -81,10 +81,13 @@ Proof. exact (conj ex_b_wf (conj ex_b_idgen ex_sess)). Qed.
     with s matching the topic under its policy, r not the publisher unless
     exclude_me is false, r attached and allowed by the filter.  Each EVENT
     carries s's id, the fresh publication id pg+1 (the one in PUBLISHED), the
-    arguments unchanged, and [event_details … (is_pattern (kind s)) …]. *)
+    arguments unchanged, and the details [ppt_part opts ++ event_details …
+    (is_pattern (kind s)) …] (passthru keys, then topic / disclosure). *)
 Theorem C01_publish_exact : forall cfg lookup now b pg pub req opts topic args kw b' pg' o,
     broker_wf b -> lookup_ok lookup ->
-    valid_uri (c_strict cfg) "" topic = true /\ (opt_bool opts "disclose_me" = true -> c_disclose cfg = true) ->
+    valid_uri (c_strict cfg) "" topic = true /\
+    publish_aborts cfg pub opts topic = false /\    (* no passthru-mode violation *)
+    (opt_bool opts "disclose_me" = true -> c_disclose cfg = true) ->
     publish cfg lookup now b pg pub req opts topic args kw = (b', pg', o) ->
     pg' = (pg + 1)%N /\ NoDup o /\
     forall x, In x o <->
@@ -95,7 +98,8 @@ Theorem C01_publish_exact : forall cfg lookup now b pg pub req opts topic args k
            ~ (r = s_id pub /\ exclude_me_of opts = true) /\
            lookup r = Some rs /\ allowed (make_filter opts) r (s_details rs) = true) /\
           x = (s_id rs, REvent (sub_id s) (pg + 1)
-                               (event_details topic (is_pattern (kind s)) (opt_bool opts "disclose_me") pub (Some rs))
+                               (ppt_part opts ++
+                                event_details topic (is_pattern (kind s)) (opt_bool opts "disclose_me") pub (Some rs))
                                args kw)).
 Proof. exact publish_exact. Qed.
 Print Assumptions C01_publish_exact.
@@ -115,11 +119,47 @@ Proof. exact event_for_inj. Qed.
 Print Assumptions C01_event_for_inj.
 
 (** [topic] is in the details iff the policy is a pattern, and then it is the published topic *)
-Theorem C01_event_topic : forall topic k disc pub recv,
-    (dhas (event_details topic (is_pattern k) disc pub recv) "topic" = true <-> k <> MExact) /\
-    dget (event_details topic (is_pattern k) disc pub recv) "topic" = (if is_pattern k then Some (vuri topic) else None).
-Proof. exact (fun topic k disc pub recv => conj (event_topic_iff topic k disc pub recv) (event_details_topic topic (is_pattern k) disc pub recv)). Qed.
+Theorem C01_event_topic : forall opts topic k disc pub recv,
+    (dhas (ppt_part opts ++ event_details topic (is_pattern k) disc pub recv) "topic" = true <-> k <> MExact) /\
+    dget (ppt_part opts ++ event_details topic (is_pattern k) disc pub recv) "topic" =
+    (if is_pattern k then Some (vuri topic) else None).
+Proof. exact (fun opts topic k disc pub recv => conj (event_dict_topic_iff opts topic k disc pub recv) (event_dict_topic opts topic (is_pattern k) disc pub recv)). Qed.
 Print Assumptions C01_event_topic.
+
+(** passthru mode: for k in ppt_scheme / ppt_serializer / ppt_cipher / ppt_keyid
+    the details carry the publisher's option, as a string, exactly when the
+    publication is in passthru mode; every other key is untouched by it *)
+Theorem C01_event_ppt_details : forall opts topic st disc pub recv k,
+    (In k ppt_keys ->
+     dget (ppt_part opts ++ event_details topic st disc pub recv) k =
+     if ppt_active opts
+     then option_map vstr (match dget opts k with Some v => as_string v | None => None end) else None) /\
+    (~ In k ppt_keys ->
+     dget (ppt_part opts ++ event_details topic st disc pub recv) k = dget (event_details topic st disc pub recv) k).
+Proof. exact (fun opts topic st disc pub recv k => conj (event_ppt_details opts topic st disc pub recv k) (event_dict_other opts topic st disc pub recv k)). Qed.
+Print Assumptions C01_event_ppt_details.
+
+(** a passthru-mode PUBLISH (valid topic) by a publisher that did not announce
+    the feature: broker and id supply unchanged, the output is exactly the
+    ABORT — no EVENT, no PUBLISHED, nothing stored *)
+Theorem C01_publish_ppt_violation_aborts : forall cfg lookup now b pg pub req opts topic args kw,
+    valid_uri (c_strict cfg) "" topic = true -> ppt_active opts = true ->
+    sess_feature pub "publisher" "payload_passthru_mode" = false ->
+    publish cfg lookup now b pg pub req opts topic args kw =
+    (b, pg, [(s_id pub, RAbort [("message", vstr "<text>")] "wamp.error.protocol_violation")]).
+Proof. exact publish_ppt_violation_aborts. Qed.
+Print Assumptions C01_publish_ppt_violation_aborts.
+
+Example C01_ex_ppt :
+  (pub_accepted ex_cfg ex_ppt_pub ex_ppt_opts "a.b" /\ ppt_active ex_ppt_opts = true) /\
+  snd (publish ex_cfg ex_lookup 5 ex_b 100 ex_ppt_pub 7 ex_ppt_opts "a.b" [vnat 1] []) =
+  [(10, REvent 3 101 [("ppt_scheme", vstr "x_custom"); ("ppt_serializer", vstr "cbor")] [vnat 1] []);
+   (11, REvent 3 101 [("ppt_scheme", vstr "x_custom"); ("ppt_serializer", vstr "cbor")] [vnat 1] []);
+   (11, REvent 4 101 [("ppt_scheme", vstr "x_custom"); ("ppt_serializer", vstr "cbor"); ("topic", vuri "a.b")] [vnat 1] []);
+   (12, REvent 5 101 [("ppt_scheme", vstr "x_custom"); ("ppt_serializer", vstr "cbor"); ("topic", vuri "a.b")] [vnat 1] [])]%N /\
+  (valid_uri (c_strict ex_cfg) "" "a.b" = true /\ ppt_active ex_ppt_opts = true /\
+   sess_feature ex_pub "publisher" f_ppt = false).
+Proof. exact (conj ex_ppt_accepted (conj ex_ppt_publish ex_ppt_violation)). Qed.
 
 Theorem C01_publish_invalid_uri : forall cfg lookup now b pg pub req opts topic args kw,
     valid_uri (c_strict cfg) "" topic = false ->
@@ -130,7 +170,7 @@ Proof. exact publish_invalid_uri. Qed.
 Print Assumptions C01_publish_invalid_uri.
 
 Example C01_ex_publish :
-  broker_wf ex_b /\ lookup_ok ex_lookup /\ pub_accepted ex_cfg ex_opts "a.b" /\
+  broker_wf ex_b /\ lookup_ok ex_lookup /\ pub_accepted ex_cfg ex_pub ex_opts "a.b" /\
   snd (publish ex_cfg ex_lookup 5 ex_b 100 ex_pub 7 ex_opts "a.b" [vnat 1] []) =
   [(10, REvent 3 101 [] [vnat 1] []);
    (11, REvent 3 101 [("publisher", vid 10); ("publisher_authid", vstr "pubid")] [vnat 1] []);
@@ -265,7 +305,7 @@ Print Assumptions C01_remove_session_effect.
     only on the holdings of the sessions in [P] (take P r := r <> sid and
     b2 := the broker after sid's SUBSCRIBE / UNSUBSCRIBE / departure) *)
 Theorem C01_publish_frame : forall cfg lookup now now' b1 b2 pg pub req opts topic args kw b1' pg1 o1 b2' pg2 o2 (P : N -> Prop),
-    broker_wf b1 -> broker_wf b2 -> lookup_ok lookup -> pub_accepted cfg opts topic ->
+    broker_wf b1 -> broker_wf b2 -> lookup_ok lookup -> pub_accepted cfg pub opts topic ->
     (forall r, P r -> forall id t k, holds_sig b1 r id t k <-> holds_sig b2 r id t k) ->
     publish cfg lookup now b1 pg pub req opts topic args kw = (b1', pg1, o1) ->
     publish cfg lookup now' b2 pg pub req opts topic args kw = (b2', pg2, o2) ->
